@@ -261,3 +261,81 @@ class StackWorld(object):
         for host in self.hosts.values():
             out.extend(host.escapes())
         return out
+
+
+# --- generated histories (used by C10 and C18) ----------------------------------------------------------------
+
+def stack_ops():
+    from hypothesis import strategies as st
+    send = st.tuples(st.just('send'), st.sampled_from([1, 3]), st.sampled_from([1, 2, 3]), st.booleans(), st.sampled_from([0, 0, 1])).map(list)
+    cut = st.tuples(st.sampled_from(['cut', 'close']), st.sampled_from([1, 2, 3])).map(list)
+    wait = st.tuples(st.just('wait'), st.sampled_from([0, 1000, 40000])).map(list)
+    return st.lists(st.one_of(send, send, send, cut, cut, wait), min_size=3, max_size=10)
+
+
+def cases():
+    from hypothesis import strategies as st
+    return st.fixed_dictionaries({'kind': st.just('stack'), 'ops': stack_ops(), 'keepalive': st.sampled_from([0, 0, 10]),
+                                  'hops': st.lists(st.sampled_from(['tcpcl', 'tcpcl', 'udpcl']), min_size=2, max_size=2),
+                                  'umtu': st.sampled_from([None, 100]), 'rmtu': st.sampled_from([None, None, 150]),
+                                  'size': st.sampled_from([8, 8, 300])})
+
+
+def drive(case, out):
+    ''' Three whole nodes in a line (n1 - n2 - n3); bundles originated at n1 / n3, TCPCL sessions terminated
+    ('cut') or closed ('close') at a node in between, virtual time passing ('wait').
+    :return: (world, info); the caller must world.close(). '''
+    from . import bpconv, ref9171 as r
+    hop12, hop23 = case.get('hops') or ['tcpcl', 'tcpcl']
+    rmtu = case.get('rmtu')
+    world = StackWorld([
+        dict(routes=[('^dtn://n[23]/', 2, hop12, rmtu)], rx_routes=[('^dtn://n1/', 'deliver')]),
+        dict(routes=[('^dtn://n1/', 1, hop12, rmtu), ('^dtn://n3/', 3, hop23, rmtu)],
+             rx_routes=[('^dtn://n2/', 'deliver'), ('^dtn://n[13]/', 'forward')]),
+        dict(routes=[('^dtn://n[12]/', 2, hop23, rmtu)], rx_routes=[('^dtn://n3/', 'deliver')]),
+    ], tcpcl_kwargs=dict(keepalive_time=case.get('keepalive', 0)), udpcl_mtu=case.get('umtu'))
+    out.label('stack-hops:%s+%s' % (hop12, hop23))
+    if rmtu:
+        out.label('stack-route-mtu')
+    info = dict(sent={}, cut_after_traffic=False, resend_after_cut=False, closed=False)
+    try:
+        seq = 0
+        carried = set()      # hosts whose sessions carried something before they were cut
+        for op in case['ops']:
+            if op[0] == 'send':
+                _o, origin, dest, pump, rpt = op
+                if dest == origin:
+                    dest = 2
+                seq += 1
+                flags = (r.FLAG_RPT_RECEPTION | r.FLAG_RPT_FORWARD | r.FLAG_RPT_DELIVERY) if rpt else 0
+                pri = dict(version=7, flags=flags, crc_type=1, dest=['dtn', '//n%d/svc' % dest], src=['dtn', '//n%d/app' % origin],
+                           rpt=['dtn', '//n%d/' % origin] if rpt else ['dtn', 'none'], ts=[1000, seq], lifetime=3600000, frag=None)
+                bundle = {'primary': pri, 'blocks': [dict(type=1, num=1, flags=0, crc_type=2,
+                                                          data=((b'stack-%d-' % seq) * 60)[:case.get('size', 8)].hex())]}
+                err = world.hosts[origin].originate(bpconv.to_repo(bundle))
+                if err is not None:
+                    out.fail('originate-raises:%s' % type(err).__name__, 'send_bundle at n%d raised %s: %s' % (origin, type(err).__name__, err))
+                info['sent'][(('dtn', '//n%d/app' % origin), 1000, seq)] = dest
+                if info['cut_after_traffic']:
+                    info['resend_after_cut'] = True
+                if pump:
+                    world.pump()
+                    carried.update([1, 2, 3])
+            elif op[0] in ('cut', 'close'):
+                host = world.hosts[op[1]]
+                for hdl in host.contacts():
+                    if op[0] == 'cut':
+                        if hdl.get_session_state() == 'established':
+                            tw.dbuscall(host.tctx, hdl, 'terminate', dbus.Byte(0))
+                    else:
+                        info['closed'] = True
+                        tw.dbuscall(host.tctx, hdl, 'close')
+                    if op[1] in carried:
+                        info['cut_after_traffic'] = True
+                world.pump()
+            elif op[0] == 'wait':
+                world.advance(op[1])
+    except Exception:
+        world.close()
+        raise
+    return world, info
